@@ -602,3 +602,277 @@ Example band_example : In 2%nat (band_bins 8 1 (1 / 5) (3 / 10)).
 Proof.
   apply band_bins_spec. split; [simpl; lia|]. unfold rfftfreq. simpl INR. lra.
 Qed.
+
+(* ================================================================== deepening
+   (1) mean square over the period for EVERY band (DC amplitude zero, Nyquist bin allowed) *)
+Definition nyq_factor (M : nat) (Phi : nat -> R) (k : nat) : R :=
+  if (2 * k =? M)%nat then 2 * (cos (Phi k) * cos (Phi k)) else 1.
+
+Lemma Re_spectrum M A Phi k : Re (noise_spectrum M A Phi k) = nyq_weight M k * A k * cos (Phi k).
+Proof.
+  unfold noise_spectrum. rewrite Re_scal. unfold cis; simpl. rewrite cos_neg. reflexivity.
+Qed.
+
+Lemma hermext_norm_sum_gen M A Phi : (0 < M)%nat -> A 0%nat = 0 ->
+  Rsum (fun k => Cnorm2 (hermext M (noise_spectrum M A Phi) k)) M
+  = 2 * Rsum (fun k => A k * A k * nyq_factor M Phi k) (M / 2 + 1).
+Proof.
+  intros HM HA0.
+  set (X := noise_spectrum M A Phi).
+  set (U := fun k => if (k =? 0)%nat then 0
+                     else if (2 * k <? M)%nat then A k * A k
+                     else if (2 * k =? M)%nat then 2 * (A k * A k * (cos (Phi k) * cos (Phi k))) else 0).
+  assert (HU : forall k, (k < M)%nat -> Cnorm2 (hermext M X k) = U k + U (negidx M k)).
+  { intros k Hk. unfold hermext, U.
+    assert (Hd := Nat.div_mod M 2 ltac:(lia)). assert (M mod 2 < 2)%nat by (apply Nat.mod_upper_bound; lia).
+    destruct (Nat.eqb_spec k 0) as [->|H0].
+    - rewrite negidx_0. simpl Nat.eqb. cbv iota.
+      unfold X. rewrite spectrum_zero by assumption. rewrite Cnorm2_Re_zero. ring.
+    - rewrite negidx_pos by lia.
+      destruct (Nat.eqb_spec (M - k) 0); [lia|].
+      destruct (Nat.ltb_spec (2 * k) M).
+      + destruct (Nat.ltb_spec (2 * (M - k)) M); [lia|].
+        destruct (Nat.eqb_spec (2 * (M - k)) M); [lia|].
+        unfold X. rewrite Cnorm2_spectrum, nyq_weight_off by lia. ring.
+      + destruct (Nat.eqb_spec (2 * k) M).
+        * replace (M - k)%nat with k by lia.
+          destruct (Nat.ltb_spec (2 * k) M); [lia|].
+          destruct (Nat.eqb_spec (2 * k) M); [|lia].
+          unfold X. rewrite Cnorm2_RtoC, Re_spectrum, nyq_weight_at by assumption. ring.
+        * destruct (Nat.ltb_spec (2 * (M - k)) M); [|lia].
+          rewrite Cnorm2_conj. unfold X. rewrite Cnorm2_spectrum, nyq_weight_off by lia. ring. }
+  rewrite (Rsum_ext _ (fun k => U k + U (negidx M k))) by assumption.
+  rewrite Rsum_plus, Rsum_negidx.
+  replace (Rsum U M + Rsum U M) with (2 * Rsum U M) by ring. f_equal.
+  assert (Hsplit : (M = (M / 2 + 1) + (M - (M / 2 + 1)))%nat).
+  { assert (M / 2 < M)%nat by (apply Nat.div_lt; lia). lia. }
+  rewrite Hsplit at 1. rewrite Rsum_split.
+  assert (Hd := Nat.div_mod M 2 ltac:(lia)). assert (M mod 2 < 2)%nat by (apply Nat.mod_upper_bound; lia).
+  rewrite (Rsum_ext (fun i => U (M / 2 + 1 + i)%nat) (fun _ => 0)).
+  - rewrite Rsum_0, Rplus_0_r. apply Rsum_ext. intros k Hk. unfold U, nyq_factor.
+    destruct (Nat.eqb_spec k 0) as [->|H0]; [rewrite HA0; ring|].
+    destruct (Nat.ltb_spec (2 * k) M).
+    + destruct (Nat.eqb_spec (2 * k) M); [lia | ring].
+    + destruct (Nat.eqb_spec (2 * k) M); [ring | lia].
+  - intros i Hi. unfold U.
+    destruct (Nat.eqb_spec (M / 2 + 1 + i) 0); [reflexivity|].
+    destruct (Nat.ltb_spec (2 * (M / 2 + 1 + i)) M); [lia|].
+    destruct (Nat.eqb_spec (2 * (M / 2 + 1 + i)) M); [lia | reflexivity].
+Qed.
+
+Lemma fft_mean_square_gen M nf A Phi rms : (0 < M)%nat -> (0 < nf)%nat -> A 0%nat = 0 ->
+  / INR M * Rsum (fun n => (fft_value M nf A Phi n * rms) * (fft_value M nf A Phi n * rms)) M
+  = rms * rms * (Rsum (fun k => A k * A k * nyq_factor M Phi k) (M / 2 + 1) / INR nf).
+Proof.
+  intros HM Hnf HA0.
+  assert (HMr : 0 < INR M) by (apply lt_0_INR; lia).
+  assert (Hnr : 0 < INR nf) by (apply lt_0_INR; lia).
+  set (X := noise_spectrum M A Phi).
+  assert (P := idft_parseval M (hermext M X) HM).
+  rewrite (Rsum_ext _ (fun n => irfft M X n * irfft M X n)) in P
+    by (intros; rewrite irfft_is_real; apply Cnorm2_RtoC).
+  unfold X in P. rewrite hermext_norm_sum_gen in P by assumption. fold X in P.
+  unfold fft_value. fold X.
+  rewrite (Rsum_ext _ (fun n => (INR M * INR M * (sqrt (1 / (2 * INR nf)) * sqrt (1 / (2 * INR nf))) * (rms * rms)) * (irfft M X n * irfft M X n)))
+    by (intros; ring).
+  rewrite Rsum_scal, P, sqrt_sqrt by (apply Rlt_le, Rdiv_lt_0_compat; lra).
+  field. split; lra.
+Qed.
+
+(* the same in terms of the published basis *)
+Lemma fft_mean_square_published z :
+  let M := fn_M z in let bins := fn_bins z in let nf := length bins in
+  let A := scatter bins (fn_amps z) in let Phi := scatter bins (fn_phases z) in
+  (0 < M)%nat -> (0 < nf)%nat -> length (fn_amps z) = nf -> A 0%nat = 0 ->
+  / INR M * Rsum (fun n => (fft_value M nf A Phi n * fn_rms z) * (fft_value M nf A Phi n * fn_rms z)) M
+  = fn_rms z * fn_rms z * (sum_pairs (fun a b => a * a * nyq_factor M Phi b) bins (fn_amps z) / INR nf).
+Proof.
+  intros M bins nf A Phi HM Hnf L HA0.
+  rewrite fft_mean_square_gen by assumption. do 2 f_equal.
+  rewrite <- (Rsum_lookup (fun a b => a * a * nyq_factor M Phi b) bins (fn_amps z) (M / 2 + 1));
+    [| apply band_bins_NoDup | intros b Hb; apply (band_bins_lt _ _ _ _ _ Hb) | assumption].
+  apply Rsum_ext. intros k Hk. unfold A, scatter. destruct (lookup bins (fn_amps z) k); ring.
+Qed.
+
+(* unit amplitudes: every bin counts 1 except the Nyquist bin, which counts 2 cos^2(phase) *)
+Lemma sum_pairs_unit_factor (F : nat -> R) bins (vals : list R) :
+  length vals = length bins -> List.Forall (fun v => v = 1) vals ->
+  sum_pairs (fun a b => a * a * F b) bins vals = list_sum_R (map F bins).
+Proof.
+  revert vals. induction bins as [|b bs IH]; intros [|v vs] L Fa; simpl in *; try lia; try reflexivity.
+  inversion Fa; subst. rewrite IH by (try assumption; lia). ring.
+Qed.
+
+Lemma list_sum_factor (c : R) (N : nat) bins : NoDup bins ->
+  list_sum_R (map (fun b => if (b =? N)%nat then c else 1) bins)
+  = INR (length bins) + (if existsb (Nat.eqb N) bins then c - 1 else 0).
+Proof.
+  induction bins as [|b bs IH]; intros ND.
+  - simpl. ring.
+  - inversion ND as [|? ? Hn ND']; subst.
+    cbn [map list_sum_R existsb length]. rewrite IH by assumption. rewrite S_INR.
+    destruct (Nat.eqb_spec b N) as [->|Hne].
+    + rewrite Nat.eqb_refl. cbn [orb].
+      replace (existsb (Nat.eqb N) bs) with false; [ring|].
+      symmetry. apply not_true_is_false. intros E. apply existsb_exists in E. destruct E as [x [Hx Ex]].
+      apply Nat.eqb_eq in Ex. subst. contradiction.
+    + destruct (Nat.eqb_spec N b); [lia|]. cbn [orb]. ring.
+Qed.
+
+Lemma unit_amp_mean_square_lemma z :
+  let M := fn_M z in let bins := fn_bins z in let nf := length bins in
+  let A := scatter bins (fn_amps z) in let Phi := scatter bins (fn_phases z) in
+  (0 < M)%nat -> (0 < nf)%nat -> length (fn_amps z) = nf ->
+  List.Forall (fun a => a = 1) (fn_amps z) -> ~ In 0%nat bins ->
+  / INR M * Rsum (fun n => (fft_value M nf A Phi n * fn_rms z) * (fft_value M nf A Phi n * fn_rms z)) M
+  = fn_rms z * fn_rms z *
+    (1 + (if (Nat.even M && existsb (Nat.eqb (M / 2)) bins)%bool then 2 * (cos (Phi (M / 2)%nat) * cos (Phi (M / 2)%nat)) - 1 else 0) / INR nf).
+Proof.
+  intros M bins nf A Phi HM Hnf L F H0.
+  assert (HA0 : A 0%nat = 0) by (unfold A, scatter; rewrite lookup_notin by assumption; reflexivity).
+  etransitivity; [apply fft_mean_square_published; assumption|]. fold M bins nf Phi. f_equal.
+  rewrite sum_pairs_unit_factor by assumption.
+  assert (Hnr : INR nf <> 0) by (apply not_0_INR; lia).
+  destruct (Nat.even M) eqn:Ev.
+  - assert (E2 : (2 * (M / 2) = M)%nat).
+    { apply Nat.even_spec in Ev. destruct Ev as [q ->]. rewrite (Nat.mul_comm 2 q), Nat.div_mul by lia. lia. }
+    rewrite (map_ext _ (fun b => if (b =? M / 2)%nat then 2 * (cos (Phi (M / 2)%nat) * cos (Phi (M / 2)%nat)) else 1)).
+    + rewrite list_sum_factor by apply band_bins_NoDup. fold nf. cbn [andb].
+      destruct (existsb (Nat.eqb (M / 2)) bins); cbn [andb]; cbv iota; field; assumption.
+    + intros b. unfold nyq_factor.
+      destruct (Nat.eqb_spec (2 * b) M); destruct (Nat.eqb_spec b (M / 2)); try reflexivity; try lia.
+      subst b. reflexivity.
+  - cbn [andb]. cbv iota.
+    rewrite (map_ext _ (fun _ => 1)).
+    + replace (list_sum_R (map (fun _ : nat => 1) bins)) with (INR nf); [field; assumption|].
+      unfold nf. clear. induction bins; simpl length; [reflexivity|]. rewrite S_INR. simpl. rewrite <- IHbins. ring.
+    + intros b. unfold nyq_factor. destruct (Nat.eqb_spec (2 * b) M); [|reflexivity].
+      exfalso. rewrite <- e in Ev. rewrite Nat.even_mul in Ev. discriminate.
+Qed.
+
+(* ================================================================== (2) Full variant: discrete mean square over a
+   common period.  Frequencies m_i * df (m_i distinct, 0 < 2 m_i < M), M = 1/(df dt) samples, any window start. *)
+Lemma scatter_cos_sum bins amps phis K (theta : nat -> R) :
+  NoDup bins -> (forall b, In b bins -> (b < K)%nat) -> length amps = length bins -> length phis = length bins ->
+  Rsum (fun k => scatter bins amps k * cos (theta k - scatter bins phis k)) K
+  = sum_pairs (fun (v : R * R) b => fst v * cos (theta b - snd v)) bins (combine amps phis).
+Proof.
+  intros ND HB La Lp.
+  rewrite <- (Rsum_lookup _ bins (combine amps phis) K ND HB) by (rewrite combine_length; lia).
+  apply Rsum_ext. intros k Hk. unfold scatter. rewrite lookup_combine by lia.
+  destruct (lookup bins amps k) eqn:Ea; destruct (lookup bins phis k) eqn:Ep; simpl; try ring.
+  exfalso. apply (lookup_some_iff _ _ _ Lp) in Ep. apply (lookup_some_iff _ _ _ La) in Ep. congruence.
+Qed.
+
+Definition lattice_sum (M : nat) (A Phi : nat -> R) (n : nat) : R :=
+  Rsum (fun k => A k * cos (2 * PI * IZR (Z.of_nat k * Z.of_nat n) / INR M - Phi k)) (M / 2 + 1).
+
+Lemma cosine_sum_mean_square M A Phi : (0 < M)%nat -> interior_support M A ->
+  / INR M * Rsum (fun n => lattice_sum M A Phi n * lattice_sum M A Phi n) M
+  = Rsum (fun k => A k * A k) (M / 2 + 1) / 2.
+Proof.
+  intros HM HS.
+  assert (HA0 : A 0%nat = 0) by (apply HS; [lia | reflexivity]).
+  assert (P := fft_mean_square M 1 A Phi 1 HM ltac:(lia) HS).
+  rewrite (Rsum_ext _ (fun n => 2 * (lattice_sum M A Phi n * lattice_sum M A Phi n))) in P.
+  - rewrite Rsum_scal in P. simpl INR in P. lra.
+  - intros n Hn. rewrite fft_value_cosine_sum by (try assumption; lia). fold (lattice_sum M A Phi n).
+    simpl INR. replace (2 / 1) with 2 by field.
+    transitivity (sqrt 2 * sqrt 2 * (lattice_sum M A Phi n * lattice_sum M A Phi n)); [ring|].
+    rewrite sqrt_sqrt by lra. reflexivity.
+Qed.
+
+Fixpoint lattice_phases (ms : list nat) (phases : list R) (df ts : R) : list R :=
+  match ms, phases with
+  | m :: ms', p :: ps' => - (p + 2 * PI * (INR m * df) * ts) :: lattice_phases ms' ps' df ts
+  | _, _ => []
+  end.
+
+Lemma lattice_phases_length ms phases df ts : length phases = length ms ->
+  length (lattice_phases ms phases df ts) = length ms.
+Proof.
+  revert phases. induction ms; intros [|p ps] L; simpl in *; try lia. rewrite IHms; lia.
+Qed.
+
+Lemma full_terms_lattice ms amps phases df dt (M : nat) ts n :
+  (0 < M)%nat -> INR M * df * dt = 1 -> length amps = length ms -> length phases = length ms ->
+  list_sum_R (cos_terms (map (fun m => INR m * df) ms) amps phases (ts + INR n * dt))
+  = sum_pairs (fun (v : R * R) b => fst v * cos (2 * PI * IZR (Z.of_nat b * Z.of_nat n) / INR M - snd v))
+              ms (combine amps (lattice_phases ms phases df ts)).
+Proof.
+  intros HM HP. assert (HMr : INR M <> 0) by (apply not_0_INR; lia).
+  assert (E : df * dt = / INR M).
+  { apply Rmult_eq_reg_l with (INR M); [|assumption]. rewrite Rinv_r by assumption. lra. }
+  revert amps phases. induction ms as [|m ms IH]; intros [|a0 az] [|p ps] La Lp; simpl in *; try lia; try reflexivity.
+  rewrite IH by lia. f_equal. f_equal. f_equal.
+  replace (2 * PI * (INR m * df) * (ts + INR n * dt) + p)
+    with (2 * PI * (INR m * INR n) * (df * dt) + p + 2 * PI * (INR m * df) * ts) by ring.
+  rewrite E, mult_IZR, <- !INR_IZR_INZ. field. assumption.
+Qed.
+
+Lemma interior_lt M m : interior M m = true -> (m < M / 2 + 1)%nat.
+Proof.
+  unfold interior. intros H. apply andb_true_iff in H. destruct H as [_ H]. apply Nat.ltb_lt in H.
+  destruct (Nat.eq_dec M 0) as [->|HM]; [lia|].
+  assert (Hd := Nat.div_mod M 2 ltac:(lia)). assert (M mod 2 < 2)%nat by (apply Nat.mod_upper_bound; lia). lia.
+Qed.
+
+Lemma sum_pairs_sq_list ms (amps : list R) : length amps = length ms ->
+  sum_pairs (fun v (_ : nat) => v * v) ms amps = list_sum_R (map (fun a => a * a) amps).
+Proof.
+  revert amps. induction ms as [|m ms IH]; intros [|a0 az] L; simpl in *; try lia; try reflexivity. rewrite IH by lia. reflexivity.
+Qed.
+
+Lemma full_mean_square_lemma ms df dt (M : nat) amps phases rms ts :
+  (0 < M)%nat -> INR M * df * dt = 1 -> NoDup ms -> (forall m, In m ms -> interior M m = true) ->
+  ms <> [] -> length amps = length ms -> length phases = length ms ->
+  / INR M * Rsum (fun n => let v := full_noise_value (map (fun m => INR m * df) ms) amps phases rms (ts + INR n * dt) in v * v) M
+  = rms * rms * (list_sum_R (map (fun a => a * a) amps) / INR (length ms)).
+Proof.
+  intros HM HP ND HI Hne La Lp.
+  set (phis := lattice_phases ms phases df ts).
+  assert (Lq : length phis = length ms) by (apply lattice_phases_length; assumption).
+  set (A := scatter ms amps). set (Phi := scatter ms phis).
+  assert (HB : forall b, In b ms -> (b < M / 2 + 1)%nat) by (intros b Hb; apply interior_lt, HI, Hb).
+  assert (HN : 0 < INR (length ms)) by (apply lt_0_INR; destruct ms; [congruence | simpl; lia]).
+  rewrite (Rsum_ext _ (fun n => (rms * rms * (2 / INR (length ms))) * (lattice_sum M A Phi n * lattice_sum M A Phi n))).
+  - rewrite Rsum_scal.
+    replace (/ INR M * (rms * rms * (2 / INR (length ms)) * Rsum (fun n => lattice_sum M A Phi n * lattice_sum M A Phi n) M))
+      with (rms * rms * (2 / INR (length ms)) * (/ INR M * Rsum (fun n => lattice_sum M A Phi n * lattice_sum M A Phi n) M)) by ring.
+    rewrite cosine_sum_mean_square by (try assumption; apply interior_support_bins; assumption).
+    unfold A. rewrite scatter_sq_sum by assumption. rewrite sum_pairs_sq_list by assumption.
+    field. lra.
+  - intros n Hn. cbv zeta. rewrite full_is_cosine_sum_lemma, map_length.
+    rewrite (full_terms_lattice ms amps phases df dt M ts n) by assumption. fold phis.
+    unfold lattice_sum, A, Phi. rewrite scatter_cos_sum by assumption.
+    set (S := sum_pairs _ ms (combine amps phis)).
+    transitivity (rms * rms * (sqrt (2 / INR (length ms)) * sqrt (2 / INR (length ms))) * (S * S)); [ring|].
+    rewrite sqrt_sqrt by (apply Rlt_le, Rdiv_lt_0_compat; lra). reflexivity.
+Qed.
+
+Lemma list_sum_sq_ones (amps : list R) : List.Forall (fun a => a = 1) amps ->
+  list_sum_R (map (fun a => a * a) amps) = INR (length amps).
+Proof.
+  induction amps; intros F; [reflexivity|]. inversion F; subst. cbn [map list_sum_R length].
+  rewrite IHamps by assumption. rewrite S_INR. ring.
+Qed.
+
+Lemma full_unit_amp_rms_lemma ms df dt (M : nat) amps phases rms ts :
+  (0 < M)%nat -> INR M * df * dt = 1 -> NoDup ms -> (forall m, In m ms -> interior M m = true) ->
+  ms <> [] -> length amps = length ms -> length phases = length ms -> List.Forall (fun a => a = 1) amps ->
+  / INR M * Rsum (fun n => let v := full_noise_value (map (fun m => INR m * df) ms) amps phases rms (ts + INR n * dt) in v * v) M
+  = rms * rms.
+Proof.
+  intros HM HP ND HI Hne La Lp F.
+  rewrite full_mean_square_lemma by assumption. rewrite list_sum_sq_ones by assumption. rewrite La.
+  field. apply not_0_INR. destruct ms; [congruence | simpl; lia].
+Qed.
+
+(* non-vacuity: three frequencies 1,2,3 * df on a period of 8 samples *)
+Example full_period_example : (forall m, In m [1; 2; 3]%nat -> interior 8 m = true) /\ NoDup [1; 2; 3]%nat /\ INR 8 * (1 / 4) * (1 / 2) = 1.
+Proof.
+  split; [|split].
+  - intros m [<-|[<-|[<-|[]]]]; reflexivity.
+  - repeat constructor; simpl; intuition lia.
+  - simpl. lra.
+Qed.
